@@ -76,8 +76,11 @@ impl AgonesDiscoveryAdapter {
                 match event {
                     Event::Init => listed.clear(),
                     Event::InitApply(server) => {
+                        // a server may be reported more than once during a (streaming) list,
+                        // only its last report counts (even if it is no longer ready by then)
+                        let name = server.name_any();
+                        listed.retain(|i| i.identifier != name);
                         if let Some(target) = Self::ready_target(&server) {
-                            listed.retain(|i| i.identifier != target.identifier);
                             listed.push(target);
                         }
                     }
